@@ -108,27 +108,26 @@ theorem drainAll_kept_empty (l : List (Nat × Ring Cmd)) (t : Nat) :
 /-! ### the collector's operations -/
 
 /-- processing + report: the rings move back into the registry, nothing is popped -/
-theorem FifoInv.finishCycle {s : Sys} (h : FifoInv s) (kept : List (Nat × Ring Cmd)) (buf buf2 : List Cmd)
+theorem FifoInv.afterProcessing {s S' : Sys} (h : FifoInv s) (kept : List (Nat × Ring Cmd))
+    (f1 : S'.cyc = none) (f2 : S'.rxs = kept) (f3 : ∀ t, S'.th t = s.th t)
+    (fa : S'.g.acceptedBy = s.g.acceptedBy) (fd : S'.g.drainedBy = s.g.drainedBy)
     (hro : ∀ t, natGet kept t = s.ringOf t) (hkeys : kept.map (·.1) = s.ringKeys) :
-    FifoInv (s.finishCycle kept buf buf2).1 := by
-  have f1 : (s.finishCycle kept buf buf2).1.cyc = none := rfl
-  have f2 : (s.finishCycle kept buf buf2).1.rxs = kept := rfl
-  have f3 : ∀ t, (s.finishCycle kept buf buf2).1.th t = s.th t := fun _ => rfl
-  have fa : (s.finishCycle kept buf buf2).1.g.acceptedBy = s.g.acceptedBy := by
-    show (if s.coll.hasReporter then _ else _ : Ghost).acceptedBy = _
-    split <;> rfl
-  have fd : (s.finishCycle kept buf buf2).1.g.drainedBy = s.g.drainedBy := by
-    show (if s.coll.hasReporter then _ else _ : Ghost).drainedBy = _
-    split <;> rfl
-  have fk : (s.finishCycle kept buf buf2).1.ringKeys = s.ringKeys := by
+    FifoInv S' := by
+  have fk : S'.ringKeys = s.ringKeys := by
     unfold Sys.ringKeys; rw [f1, f2]; exact hkeys
-  have fq : ∀ t, (s.finishCycle kept buf buf2).1.ringQ t = s.ringQ t := by
+  have fq : ∀ t, S'.ringQ t = s.ringQ t := by
     intro t; unfold Sys.ringQ Sys.ringOf; rw [f1, f2]; dsimp only; rw [hro t]; rfl
   refine ⟨?_, by rw [fk]; exact h.nodup, fun t ht => by rw [fk] at ht; rw [f3]; exact h.reg t ht⟩
   intro t ha
   rw [f3] at ha ⊢
   rw [fa, fd, fq]
   exact h.order t ha
+
+theorem FifoInv.finishCycle {s : Sys} (h : FifoInv s) (kept : List (Nat × Ring Cmd)) (buf buf2 : List Cmd)
+    (hro : ∀ t, natGet kept t = s.ringOf t) (hkeys : kept.map (·.1) = s.ringKeys) :
+    FifoInv (s.finishCycleP kept buf buf2).1 := by
+  obtain ⟨f1, f2, f3, fa, fd⟩ := Sys.finishCycleP_fields s kept buf buf2
+  exact h.afterProcessing kept f1 f2 f3 fa fd hro hkeys
 
 theorem FifoInv.cycBegin {s : Sys} (h : FifoInv s) : FifoInv s.cycBegin.1 := by
   unfold Sys.cycBegin
@@ -154,23 +153,20 @@ theorem FifoInv.cycle {s : Sys} (h : FifoInv s) (hc : s.cyc = none) : FifoInv s.
   have hk : s.ringKeys = s.rxs.map (·.1) := by unfold Sys.ringKeys; rw [hc]
   have hn : (s.rxs.map (·.1)).Nodup := by rw [← hk]; exact h.nodup
   -- the state after the drain, before processing
-  have f1 : ∀ kept buf buf2 (g : Ghost), ((s.withG g).finishCycle kept buf buf2).1.cyc = none := fun _ _ _ _ => rfl
-  have f2 : ∀ kept buf buf2 (g : Ghost), ((s.withG g).finishCycle kept buf buf2).1.rxs = kept := fun _ _ _ _ => rfl
-  have f3 : ∀ kept buf buf2 (g : Ghost) t, ((s.withG g).finishCycle kept buf buf2).1.th t = s.th t := fun _ _ _ _ _ => rfl
   generalize hg : ({ s.g with drainedBy := (drainAllTagged s.rxs).reverse ++ s.g.drainedBy } : Ghost) = g'
   have ga : g'.acceptedBy = s.g.acceptedBy := by rw [← hg]
   have gd : g'.drainedBy = (drainAllTagged s.rxs).reverse ++ s.g.drainedBy := by rw [← hg]
-  have fa : ((s.withG g').finishCycle (drainAll s.rxs).1 (drainAll s.rxs).2 []).1.g.acceptedBy = g'.acceptedBy := by
-    show (if (s.withG g').coll.hasReporter then _ else _ : Ghost).acceptedBy = _
-    split <;> rfl
-  have fd : ((s.withG g').finishCycle (drainAll s.rxs).1 (drainAll s.rxs).2 []).1.g.drainedBy = g'.drainedBy := by
-    show (if (s.withG g').coll.hasReporter then _ else _ : Ghost).drainedBy = _
-    split <;> rfl
+  show FifoInv ((s.withG g').finishCycleP (drainAll s.rxs).1 (drainAll s.rxs).2 []).1
+  obtain ⟨f1, f2, f3, fa, fd⟩ := Sys.finishCycleP_fields (s.withG g') (drainAll s.rxs).1 (drainAll s.rxs).2 []
+  generalize ((s.withG g').finishCycleP (drainAll s.rxs).1 (drainAll s.rxs).2 []).1 = S' at f1 f2 f3 fa fd ⊢
+  have f3 : ∀ t, S'.th t = s.th t := f3
+  have fa : S'.g.acceptedBy = g'.acceptedBy := fa
+  have fd : S'.g.drainedBy = g'.drainedBy := fd
   refine ⟨?_, ?_, ?_⟩
   · intro t ha
     rw [f3] at ha ⊢
     have ho := h.order t ha
-    have hq : Sys.ringQ ((s.withG g').finishCycle (drainAll s.rxs).1 (drainAll s.rxs).2 []).1 t = [] := by
+    have hq : Sys.ringQ S' t = [] := by
       unfold Sys.ringQ Sys.ringOf
       rw [f1, f2]
       exact drainAll_kept_empty s.rxs t
